@@ -26,14 +26,17 @@ pub struct Cfg {
     pub exe_override: bool,
     pub path_search: bool,
     pub env: bool,
+    /// bit s set: the parent has closed its own standard descriptor s, so that number is free when the launch begins
+    pub free_std: u8,
 }
 
 impl Cfg {
     pub fn name(&self) -> String {
         let s = |x: u8| ["N", "P", "F", "M"][x as usize];
         format!(
-            "{}{}{}{}{}{}{}{}{}{}{}",
+            "{}{}{}{}{}{}{}{}{}{}{}{}",
             s(self.sin), s(self.sout), s(self.serr),
+            if self.free_std != 0 { format!("+parent-fds-free:{}", (0..3).filter(|b| self.free_std & (1 << b) != 0).map(|b| b.to_string()).collect::<Vec<_>>().join(",")) } else { String::new() },
             if self.detached { "+det" } else { "" },
             if self.cwd { "+cwd" } else { "" },
             if self.setuid { "+uid" } else { "" },
@@ -47,7 +50,7 @@ impl Cfg {
 }
 
 fn configs(thorough: bool) -> Vec<Cfg> {
-    let base = Cfg { sin: 0, sout: 0, serr: 0, detached: false, cwd: false, setuid: false, setgid: false, setpgid: false, exe_override: false, path_search: false, env: false };
+    let base = Cfg { sin: 0, sout: 0, serr: 0, detached: false, cwd: false, setuid: false, setgid: false, setpgid: false, exe_override: false, path_search: false, env: false, free_std: 0 };
     let mut v = vec![];
     let streams: Vec<(u8, u8, u8)> = if thorough {
         vec![(0, 0, 0), (1, 1, 1), (1, 0, 0), (0, 1, 0), (0, 0, 1), (2, 2, 2), (0, 1, 3), (0, 3, 1), (1, 2, 1), (2, 1, 0), (0, 3, 0), (0, 0, 3), (1, 1, 3)]
@@ -125,6 +128,7 @@ pub struct Launch {
     pub after_drop_leaks: Vec<String>,
     pub after_drop_survivors: Vec<(i32, char)>,
     pub child_panics: usize,
+    pub child_escapes: usize,
     pub reported: bool,
     pub fired: Vec<u32>,
 }
@@ -188,6 +192,34 @@ pub fn launch(ctx: &mut Ctx, cfg: &Cfg, dir: &Path, rules: &[Rule], program: Opt
         setpgid: cfg.setpgid,
         ..Default::default()
     };
+    // the parent's own descriptor layout: some of 0/1/2 closed (the files of the configuration are open already, so
+    // the numbers are free for whatever the library opens); put back before this function returns
+    // (the lock is for making and unmaking the layout only: the watchdog must be able to look at a launch that hangs)
+    let mut layout_guard = if cfg.free_std != 0 { Some(inspect::proc_guard()) } else { None };
+    let mut saved_std: Vec<(i32, i32)> = vec![];
+    for s in 0..3 {
+        if cfg.free_std & (1 << s) != 0 {
+            unsafe {
+                let keep = libc::syscall(libc::SYS_fcntl, s, libc::F_DUPFD_CLOEXEC, 100) as i32;
+                libc::syscall(libc::SYS_close, s);
+                saved_std.push((s, keep));
+            }
+        }
+    }
+    // (the parent's own closed descriptors are not part of what the launch may or may not leave behind)
+    let mut before = before;
+    for (s, _) in &saved_std {
+        before.remove(s);
+    }
+    if !saved_std.is_empty() {
+        let now = spawn::snap();
+        for (_, keep) in &saved_std {
+            if let Some(e) = now.get(keep) {
+                before.insert(*keep, e.clone());
+            }
+        }
+    }
+    drop(layout_guard.take());
     let mut idx = vec![];
     for r in rules {
         idx.push(plan::add(*r));
@@ -215,6 +247,7 @@ pub fn launch(ctx: &mut Ctx, cfg: &Cfg, dir: &Path, rules: &[Rule], program: Opt
         after_drop_leaks: vec![],
         after_drop_survivors: vec![],
         child_panics: 0,
+        child_escapes: 0,
         reported: false,
         fired: idx.iter().map(|&i| plan::fired(i)).collect(),
     };
@@ -279,6 +312,14 @@ pub fn launch(ctx: &mut Ctx, cfg: &Cfg, dir: &Path, rules: &[Rule], program: Opt
         None => {}
     }
     l.child_panics = ilog::shared().map(|s| s.child_panics.load(SeqCst)).unwrap_or(0);
+    l.child_escapes = ilog::child_escapes();
+    let _layout_guard = if saved_std.is_empty() { None } else { Some(inspect::proc_guard()) };
+    for (s, keep) in saved_std {
+        unsafe {
+            libc::syscall(libc::SYS_dup3, keep, s, 0);
+            libc::syscall(libc::SYS_close, keep);
+        }
+    }
     match old_path {
         Some(p) => std::env::set_var("PATH", p),
         None => std::env::remove_var("PATH"),
@@ -327,6 +368,13 @@ pub fn judge(ctx: &mut Ctx, cfg: &Cfg, l: &Launch, what: &str, must_fail: Option
         ctx.violation(
             &format!("C07/child-panic/{}", what),
             "library code panicked in the forked child instead of reporting the failure",
+            witness(cfg, l, J::Null),
+        );
+    }
+    if l.child_escapes > 0 {
+        ctx.violation(
+            &format!("C07/forked-child-ran-on-in-the-callers-code/{}", what),
+            "the forked child returned from Popen::create into the caller's code instead of becoming the program or exiting",
             witness(cfg, l, J::Null),
         );
     }
@@ -477,7 +525,7 @@ pub fn run(ctx: &mut Ctx) {
     // ---- the process ignores SIGCHLD (children are reaped by the kernel behind the library's back):
     //      the error must still be that of the step that failed
     ctx.family("sigchld-ignored", ctx.n(48, 400), |ctx, rng, i| {
-        let cfg = Cfg { sin: (i % 2) as u8, sout: (i % 2) as u8, serr: 0, detached: i % 4 >= 2, cwd: false, setuid: false, setgid: false, setpgid: false, exe_override: false, path_search: i % 3 == 0, env: false };
+        let cfg = Cfg { sin: (i % 2) as u8, sout: (i % 2) as u8, serr: 0, detached: i % 4 >= 2, cwd: false, setuid: false, setgid: false, setpgid: false, exe_override: false, path_search: i % 3 == 0, env: false, free_std: 0 };
         let dir = ctx.scratch_keep("c07s");
         let kind = *rng.pick(&[k::DUP2, k::EXECVE, k::EXECVE, k::SETPGID, k::CHDIR]);
         let mut cfg = cfg;
@@ -504,12 +552,96 @@ pub fn run(ctx: &mut Ctx) {
         judge(ctx, &cfg, &l, &format!("sigchld-ignored/child:{}", k::name(kind)), Some(true));
         let _ = std::fs::remove_dir_all(&dir);
     });
+    // ---- the parent has closed some of its own standard descriptors: the descriptors the library opens for the
+    //      launch (status channel, pipes) then get the numbers 0..2, onto which the child installs its streams
+    let layouts: Vec<(u8, (u8, u8, u8))> = {
+        let mut v = vec![];
+        for free in 1..8u8 {
+            for st in [(0u8, 0u8, 0u8), (1, 1, 1), (1, 0, 0), (0, 1, 0), (0, 0, 1), (2, 1, 1), (1, 2, 3), (0, 1, 3), (2, 2, 1), (0, 2, 1), (2, 1, 2)] {
+                v.push((free, st));
+            }
+        }
+        v
+    };
+    let nl = layouts.len() as u64 * 3;
+    ctx.family("parent-std-free", nl, move |ctx, rng, i| {
+        let (free, (a, b, c)) = layouts[(i / 3) as usize];
+        let mode = i % 3; // 0: nothing goes wrong, 1: the program does not exist, 2: an injected child-side failure
+        let cfg = Cfg { sin: a, sout: b, serr: c, detached: rng.chance(300), cwd: false, setuid: false, setgid: false, setpgid: rng.chance(300), exe_override: false, path_search: false, env: false, free_std: free };
+        let dir = ctx.scratch_keep("c07l");
+        let what;
+        let l = match mode {
+            0 => {
+                what = "parent-std-free/nothing-fails".to_string();
+                launch(ctx, &cfg, &dir, &[], None, None)
+            }
+            1 => {
+                what = "parent-std-free/real:missing".to_string();
+                let mut l = launch(ctx, &cfg, &dir, &[], Some((vec![dir.join("does-not-exist").into_os_string(), OsString::from("a")], None)), None);
+                if l.result.is_ok() {
+                    l.expected_exe = "<nothing can be started>".into();
+                }
+                l
+            }
+            _ => {
+                let kind = *rng.pick(&[k::EXECVE, k::EXECVE, k::DUP2, k::SETPGID]);
+                let mut cfg2 = cfg.clone();
+                if kind == k::SETPGID {
+                    cfg2.setpgid = true;
+                }
+                what = format!("parent-std-free/child:{}", k::name(kind));
+                let e = *rng.pick(&[libc::EACCES, libc::ENOMEM, libc::EPERM, libc::EIO]);
+                let rule = Rule { kind, scope: plan::SCOPE_CHILD, nth: if kind == k::EXECVE { 0 } else { 1 }, fd: -1, act: plan::ACT_FAIL, val: e as i64, prob: 1000 };
+                let l = launch(ctx, &cfg2, &dir, &[rule], None, None);
+                if l.fired[0] == 0 {
+                    ctx.count("injections_not_reached", 1);
+                    let _ = std::fs::remove_dir_all(&dir);
+                    return;
+                }
+                l
+            }
+        };
+        ctx.count("launches_with_parent_standard_descriptors_free", 1);
+        ctx.distinct(&format!("layout|{}|{}", cfg.name(), what));
+        judge(ctx, &cfg, &l, &what, Some(mode != 0));
+        let _ = std::fs::remove_dir_all(&dir);
+    });
+    // ---- schedules: the parent or the child is held up at one of the points between two steps of the launch; nothing
+    //      fails, so a handle must come back, and only once the program is known to run
+    ctx.family("schedules", ctx.n(160, 3000), |ctx, rng, i| {
+        let st = *rng.pick(&[(0u8, 0u8, 0u8), (1, 1, 1), (0, 1, 3), (2, 2, 2), (1, 0, 0)]);
+        let cfg = Cfg { sin: st.0, sout: st.1, serr: st.2, detached: rng.chance(300), cwd: rng.chance(300), setuid: false, setgid: false, setpgid: i % 2 == 0, exe_override: rng.chance(200), path_search: rng.chance(300), env: rng.chance(300), free_std: 0 };
+        let dir = ctx.scratch_keep("c07d");
+        // where somebody is held up (microseconds)
+        let points: [(u16, u8, u8); 7] = [
+            (k::FORK, plan::SCOPE_PARENT, plan::ACT_DELAY_AFTER), // the child runs ahead of the parent: it may be the program already
+            (k::FORK, plan::SCOPE_PARENT, plan::ACT_DELAY_BEFORE),
+            (k::CLOSE, plan::SCOPE_PARENT, plan::ACT_DELAY_BEFORE),
+            (k::READ, plan::SCOPE_PARENT, plan::ACT_DELAY_BEFORE),
+            (k::SETPGID, plan::SCOPE_CHILD, plan::ACT_DELAY_BEFORE),
+            (k::DUP2, plan::SCOPE_CHILD, plan::ACT_DELAY_BEFORE),
+            (k::CLOSE, plan::SCOPE_CHILD, plan::ACT_DELAY_BEFORE),
+        ];
+        let mut rules = vec![];
+        let first = points[(i % points.len() as u64) as usize];
+        rules.push(Rule { kind: first.0, scope: first.1, nth: 0, fd: -1, act: first.2, val: rng.range(2_000, 25_000) as i64, prob: 1000 });
+        if rng.chance(400) {
+            let p = *rng.pick(&points);
+            rules.push(Rule { kind: p.0, scope: p.1, nth: 0, fd: -1, act: p.2, val: rng.range(500, 8_000) as i64, prob: 500 });
+        }
+        let l = launch(ctx, &cfg, &dir, &rules, None, None);
+        let what = format!("schedule/{}-held-up-{}-{}", if first.1 == plan::SCOPE_PARENT { "parent" } else { "child" }, if first.2 == plan::ACT_DELAY_AFTER { "after" } else { "before" }, k::name(first.0));
+        ctx.count("launches_under_a_perturbed_schedule", 1);
+        ctx.distinct(&format!("sched|{}|{}", cfg.name(), what));
+        judge(ctx, &cfg, &l, &what, Some(false));
+        let _ = std::fs::remove_dir_all(&dir);
+    });
     // ---- real causes
     let reals: Vec<&str> = vec!["missing", "directory", "mode0644", "bad-cwd", "cwd-is-file", "missing-on-path", "empty-path-entries", "noexec-on-path", "name-too-long", "garbage-file"];
     let nreal = reals.len() as u64 * 4;
     ctx.family("real", nreal, move |ctx, _rng, i| {
         let cause = reals[(i / 4) as usize];
-        let mut cfg = Cfg { sin: 0, sout: 0, serr: 0, detached: i % 2 == 1, cwd: false, setuid: false, setgid: false, setpgid: false, exe_override: false, path_search: false, env: false };
+        let mut cfg = Cfg { sin: 0, sout: 0, serr: 0, detached: i % 2 == 1, cwd: false, setuid: false, setgid: false, setpgid: false, exe_override: false, path_search: false, env: false, free_std: 0 };
         if i % 4 >= 2 {
             cfg.sin = 1;
             cfg.sout = 1;
@@ -578,7 +710,7 @@ pub fn run(ctx: &mut Ctx) {
                 result: Err("?".into()), os_err: None, logic_err: false, events, panic: m.panic.clone(), cert: m.cert.is_some(),
                 leaks: spawn::leaked(&before, &after, &[]), vanished: spawn::vanished(&before, &after), survivors: spawn::surviving(&pids),
                 exe_at_return: None, expected_exe: prog.to_string_lossy().into_owned(), exposed_ok: true, exposed_desc: String::new(),
-                after_drop_leaks: vec![], after_drop_survivors: vec![], child_panics: ilog::shared().map(|s| s.child_panics.load(SeqCst)).unwrap_or(0),
+                after_drop_leaks: vec![], after_drop_survivors: vec![], child_panics: ilog::shared().map(|s| s.child_panics.load(SeqCst)).unwrap_or(0), child_escapes: ilog::child_escapes(),
                 reported: spawn::report_path(&prog).exists(), fired: vec![],
             };
             match m.result {
